@@ -35,12 +35,15 @@ pub enum Op {
     Uncle,
     /// two forged empty blocks on the tip's parent: the tip is detached
     Reorg,
+    /// a forged block on the tip (another miner's) that proposes X, Y and Dsp: when those are
+    /// submitted later they enter the pool already proposed
+    Foreign,
 }
 
 #[derive(Clone, Copy, Debug, Serialize, Deserialize, PartialEq, Eq, Hash)]
 pub enum Limit {
-    Bytes,
-    Cycles,
+    Bytes(u64),
+    Cycles(u64),
     Loose,
 }
 
@@ -48,10 +51,11 @@ fn world(limit: Limit) -> WorldOpts {
     let mut w = WorldOpts::default();
     w.max_block_proposals_limit = Some(3);
     match limit {
-        // header + cellbase + extension take ~700 bytes; a universe transaction 240-340
-        Limit::Bytes => w.max_block_bytes = Some(1_600),
+        // header + cellbase + extension take 478 bytes, a proposal 10, an uncle 228, a universe
+        // transaction 243 / 280 / 332
+        Limit::Bytes(l) => w.max_block_bytes = Some(l),
         // always_success costs 537 cycles
-        Limit::Cycles => w.max_block_cycles = Some(537 * 3 + 100),
+        Limit::Cycles(l) => w.max_block_cycles = Some(l),
         Limit::Loose => {}
     }
     w
@@ -141,7 +145,8 @@ impl Runner {
             Ok(false) => report.violation("template-refused/already-known", format!("after {}: {describe}: the twin answered Ok(false)", trace.join(", ")), label.clone()),
             Err(e) => {
                 let s = e.to_string();
-                let kind: String = s.split(|c: char| c == '(' || c == ':').next().unwrap_or("").trim().chars().filter(|c| !c.is_ascii_digit()).collect::<String>().replace(' ', "-");
+                // e.g. "Block(ExceededMaximumBlockBytes(..." -> "Block-ExceededMaximumBlockBytes"
+                let kind: String = s.split(|c: char| !c.is_ascii_alphanumeric()).filter(|t| t.chars().next().map(|c| c.is_ascii_uppercase()).unwrap_or(false)).take(2).collect::<Vec<_>>().join("-");
                 report.violation(format!("template-refused/{kind}"), format!("after {}: {describe}: refused by the node's own verification: {s}", trace.join(", ")), label.clone());
             }
         }
@@ -181,6 +186,12 @@ impl Runner {
                     }
                 }
             }
+        }
+        if std::env::var("C13_SIZES").is_ok() {
+            if let Ok(d) = self.drv.dump() {
+                println!("pool: {:?}", d.entries.iter().map(|e| (self.name_of(&e.id), e.status.clone(), e.parents.iter().map(|p| self.name_of(p)).collect::<Vec<_>>())).collect::<Vec<_>>());
+            }
+            println!("sizes: total {} without-uncle-proposals {} cellbase {} txs {:?} proposals {} uncles {} ext {:?} after {:?}", block.data().as_slice().len(), block.data().serialized_size_without_uncle_proposals(), block.transactions()[0].data().as_slice().len(), block.transactions().iter().skip(1).map(|t| (self.name_of(&t.proposal_short_id()), t.data().serialized_size_in_block())).collect::<Vec<_>>(), block.data().proposals().len(), block.data().uncles().len(), block.extension().map(|e| e.len()), trace.last());
         }
         if block.transactions().len() > 1 {
             report.count("templates_with_transactions", 1);
@@ -225,6 +236,15 @@ impl Runner {
                         let _ = e;
                         return Ok(None);
                     }
+                }
+                Op::Foreign => {
+                    self.drv.clock += BLOCK_INTERVAL_MS;
+                    set_time(self.drv.clock);
+                    let proposals: Vec<ProposalShortId> = ["X", "Y", "Dsp"].iter().map(|n| self.txs[n].proposal_short_id()).collect();
+                    // the twin must be able to reach the tip: it has learnt every block of this history
+                    let b = self.twin.build_on(&tip.hash(), &BlockSpec { miner: 8, proposals, timestamp: Some(self.drv.clock), ..Default::default() })?;
+                    self.drv.node.process(&b).map_err(|e| format!("forged block refused: {e}"))?;
+                    trace.push(format!("foreign block #{} proposes X, Y, Dsp", b.number()));
                 }
                 Op::Uncle | Op::Reorg => {
                     if tip.number() == 0 {
@@ -295,7 +315,7 @@ impl Runner {
             })
             .collect();
         // siblings delivered and not yet included as uncles
-        let siblings: Vec<usize> = hist.iter().enumerate().filter(|(_, o)| matches!(o, Op::Uncle | Op::Reorg)).map(|(i, _)| hist[..i].iter().filter(|o| matches!(o, Op::Mine)).count()).collect();
+        let siblings: Vec<usize> = hist.iter().enumerate().filter(|(_, o)| matches!(o, Op::Uncle | Op::Reorg)).map(|(i, _)| hist[..i].iter().filter(|o| matches!(o, Op::Mine | Op::Foreign)).count()).collect();
         let f = fp(&(self.limit, &pool, &chain, &siblings));
         if let Ok(path) = std::env::var("C13_LOG") {
             use std::io::Write;
@@ -314,6 +334,38 @@ impl Runner {
     }
 }
 
+/// (world, BFS depth from each seed).  Byte limits sit on packing boundaries of the universe:
+/// 478 (header, cellbase, extension) + 855 (X, A1, Cdep) = 1333, + 10 per proposal, + 228 per uncle.
+fn worlds(tier: Tier) -> Vec<(Limit, usize)> {
+    let mut w = vec![];
+    if tier.is_thorough() {
+        w.push((Limit::Bytes(1_600), 5));
+        w.push((Limit::Cycles(537 * 3 + 100), 4));
+        w.push((Limit::Loose, 4));
+        // every even byte limit across the 3-transaction boundary with 0..3 proposals, and with one uncle
+        for l in (1_326..=1_366).step_by(2) {
+            w.push((Limit::Bytes(l), 3));
+        }
+        for l in (1_554..=1_594).step_by(4) {
+            w.push((Limit::Bytes(l), 3));
+        }
+        for l in [537 * 3 - 1, 537 * 3, 537 * 3 + 1, 537 * 2, 537 * 4] {
+            w.push((Limit::Cycles(l), 3));
+        }
+        // three 243-byte transactions arriving already proposed (478 + 729 = 1207)
+        for l in (1_200..=1_240).step_by(2) {
+            w.push((Limit::Bytes(l), 3));
+        }
+    } else {
+        w.push((Limit::Bytes(1_600), 2));
+        w.push((Limit::Bytes(1_338), 2));
+        w.push((Limit::Bytes(1_212), 2));
+        w.push((Limit::Cycles(537 * 3), 2));
+        w.push((Limit::Loose, 2));
+    }
+    w
+}
+
 fn seeds() -> Vec<Vec<Op>> {
     vec![
         vec![],
@@ -323,6 +375,13 @@ fn seeds() -> Vec<Vec<Op>> {
         vec![Op::Submit(0), Op::Submit(1), Op::Submit(4), Op::Submit(3), Op::Mine, Op::Mine],
         // just before the epoch boundary (4-block epochs) with one tx in flight
         vec![Op::Submit(6), Op::Mine, Op::Mine, Op::Mine],
+        // a new tip at which three proposed txs AND unproposed pending txs exist (the assembler's
+        // full rebuild has to account proposals and transactions together)
+        vec![Op::Submit(0), Op::Submit(6), Op::Submit(7), Op::Submit(4), Op::Mine, Op::Submit(5), Op::Submit(3), Op::Submit(1), Op::Mine],
+        // ids proposed by someone else, inside the window, before the transactions arrive
+        vec![Op::Foreign, Op::Mine, Op::Submit(0), Op::Submit(6), Op::Submit(7)],
+        // the same with an uncle candidate
+        vec![Op::Submit(0), Op::Submit(6), Op::Submit(7), Op::Submit(4), Op::Mine, Op::Submit(5), Op::Submit(3), Op::Submit(1), Op::Uncle, Op::Mine],
     ]
 }
 
@@ -330,9 +389,9 @@ pub fn meta(tier: Tier) -> Meta {
     Meta {
         id: "C13",
         level: "model_checking",
-        rule: "state = operation history over {Submit(t) for 9 designed transactions (chain of three, a join, a dep user and the dep cell's spender, two independent ones, a conflicting replacement), Mine (seal and process the node's own template), Uncle (a forged sibling of the tip arrives), Reorg (two forged blocks on the tip's parent detach the tip)} replayed on a real node with tx-pool and block assembler, in three worlds: block bytes limited to ~3 transactions, block cycles limited to 3 transactions, no tight limit (proposal limit 3 in all; 4-block epochs; proposal window 2..4); BFS from four seed histories (empty; four proposed txs; chain + join proposed; one block before the epoch boundary), dedup on (pool entries with stage and links, chain content, siblings delivered). After EVERY operation: the template returned immediately (if it still names the previous tip it is checked on that parent) and the template naming the current tip are sealed (dummy PoW, fresh nonce) and processed by a twin node (chain only) positioned on the named parent: must be accepted; and against the pool dump: every template tx has all its pooled parents earlier in the template, no cell is spent twice, proposals within the limit. non-trivial = state with a proposed tx or an uncle candidate.",
+        rule: "state = operation history over {Submit(t) for 9 designed transactions (chain of three, a join, a dep user and the dep cell's spender, two independent ones, a conflicting replacement), Mine (seal and process the node's own template), Uncle (a forged sibling of the tip arrives), Reorg (two forged blocks on the tip's parent detach the tip), Foreign (a forged block on the tip proposes three of the transactions before they are submitted)} replayed on a real node with tx-pool and block assembler, in a family of worlds: block byte limits on and around the packing boundaries of the universe (three transactions with 0..3 proposals, with an uncle), block cycle limits on and around 2, 3, 4 transactions, and no tight limit (proposal limit 3 in all; 4-block epochs; proposal window 2..4); BFS from seven seed histories (empty; ids proposed by a foreign block before the transactions arrive; four proposed txs; chain + join proposed; one block before the epoch boundary; a fresh tip with three proposed and several unproposed pending txs, without and with an uncle candidate), dedup on (pool entries with stage and links, chain content, siblings delivered). After EVERY operation: the template returned immediately (if it still names the previous tip it is checked on that parent) and the template naming the current tip are sealed (dummy PoW, fresh nonce) and processed by a twin node (chain only) positioned on the named parent: must be accepted; and against the pool dump: every template tx has all its pooled parents earlier in the template, no cell is spent twice, proposals within the limit. non-trivial = state with a proposed tx or an uncle candidate.",
         assumptions: &["the moment of the template request relative to the assembler's internal message processing is whatever the real threads produce (two requests per operation); it is not enumerated by a scheduler", "notify scripts / HTTP notification of templates are outside"],
-        bounds: json!({"depth_from_seed": if tier.is_thorough() { json!({"Bytes": 5, "Cycles": 4, "Loose": 4}) } else { json!({"Bytes": 3, "Cycles": 2, "Loose": 2}) }, "seeds": seeds().len(), "worlds": ["Bytes", "Cycles", "Loose"]}),
+        bounds: json!({"worlds_and_depth_from_seed": worlds(tier).iter().map(|(l, d)| format!("{l:?}:{d}")).collect::<Vec<_>>(), "seeds": seeds().len()}),
     }
 }
 
@@ -355,15 +414,9 @@ pub fn run(ctx: &Ctx) -> Report {
         return report;
     }
     let mut ops: Vec<Op> = (0..NAMES.len()).map(Op::Submit).collect();
-    ops.extend([Op::Mine, Op::Uncle, Op::Reorg]);
+    ops.extend([Op::Mine, Op::Uncle, Op::Reorg, Op::Foreign]);
     let mut ri = 0u64;
-    for limit in [Limit::Bytes, Limit::Cycles, Limit::Loose] {
-        let depth = match (ctx.tier.is_thorough(), limit) {
-            (true, Limit::Bytes) => 5,
-            (true, _) => 4,
-            (false, Limit::Bytes) => 3,
-            (false, _) => 2,
-        };
+    for (limit, depth) in worlds(ctx.tier) {
         let mut runner: Option<Runner> = None;
         let mut seen: HashSet<u64> = HashSet::new();
         let mut frontier: Vec<Vec<Op>> = vec![];
